@@ -222,6 +222,8 @@ class BaseFileLock(abc.ABC):
         if not self.is_locked:
             return
 
+        # Number of times the thread lock needs to be released
+        depth = self._lock_counter if force else 1
         self._decrement_lock_counter()
 
         if self._lock_counter == 0 or force:
@@ -238,7 +240,8 @@ class BaseFileLock(abc.ABC):
                 _logger.info('Lock %s released on %s', lid, fn)
 
         try:
-            self._thread_lock.release()
+            for _ in range(max(1, depth)):
+                self._thread_lock.release()
         except RuntimeError:  # not reentrant and already unlocked
             pass
 
